@@ -3,8 +3,8 @@ import os, re
 from common import *
 from props import c02, c08, c09
 LEVEL_TEXT = 'bounded model checking of helpers::blob (exact size/alignment), of the real Trace impls on opaque items (no field / base edges), of the allowlisting traversal on blocklisted items, and of the derive rule for blocklisted types'
-OUTSIDE = ['Item::is_blocklisted / opaque_by_name (regex sets and path strings)', 'that every use site still NAMES a blocklisted type (token templates)', 'layout of containers once the user supplies a definition', 'CompInfo::codegen opaque path (driver)']
-EXPLANATION = 'Reuses three kernels: the layout kernel of C02 (blob harnesses), the traversal kernel of C09 (edge enumeration incl. opaque items, blocklisted roots) and the derive specification kernel of C08 (non-allowlisted X: exactly what the user vouches for).'
+OUTSIDE = ['Item::is_blocklisted / opaque_by_name (regex sets and path strings)', 'that every use site still NAMES a blocklisted type (token templates)', 'layout of containers once the user supplies a definition']
+EXPLANATION = 'The opaque path of the REAL CompInfo::codegen region (one blob of the C size and alignment, never packed+align). Reuses three more kernels: the layout kernel of C02 (blob harnesses), the traversal kernel of C09 (edge enumeration incl. opaque items, blocklisted roots) and the derive specification kernel of C08 (non-allowlisted X: exactly what the user vouches for).'
 
 
 def build(tier, seed):
@@ -17,6 +17,15 @@ def build(tier, seed):
         ks.append(lay)
     except Exception as e:
         ks.append(Kernel(name='blob', error='build-failed: %s' % e))
+    try:
+        for k in c02.build(tier, seed):
+            if k.name == 'driver':
+                if not k.error:
+                    k.harnesses = [h for h in k.harnesses if h.name.startswith('drv_opaque_')]
+                k.name = 'opaque_codegen'
+                ks.append(k)
+    except Exception as e:
+        ks.append(Kernel(name='opaque_codegen', error='build-failed: %s' % e))
     def trav():
         k = c09.traversal_kernel(tier, ('edges', 'block'))
         k.harnesses = [h for h in k.harnesses if h.name.startswith('blocklisted_') or h.name in ('edges_Comp', 'edges_Alias', 'edges_TemplateInstantiation', 'edges_Opaque', 'edges_Array')]
@@ -38,4 +47,18 @@ def build(tier, seed):
         k.name = 'derive_blocklisted'
         return k
     ks.append(kernel_or_error('derive_blocklisted', der))
+    def helper():
+        G = os.path.dirname(os.path.dirname(os.path.abspath(__file__)))
+        f = extract_from('codegen/mod.rs', r'^    pub\(crate\) fn prepend_bitfield_unit_type\(')
+        if f.count('include_str!("./bitfield_unit.rs")') != 1:
+            raise SliceError('prepend_bitfield_unit_type: include_str! shape changed')
+        t = f.replace('include_str!("./bitfield_unit.rs")', '"X"').replace('pub(crate) fn', 'pub fn')
+        k = Kernel(name='helper_prologue')
+        k.files = {'src/lib.rs': open(os.path.join(G, 'harness', 'c10_helper.rs')).read().replace('/*PREPEND*/', t)}
+        k.harnesses = [H('blocklisted_helper_type_is_not_defined', timeout=600, desc='utils::prepend_bitfield_unit_type: not emitted when __BindgenBitfieldUnit is blocklisted as a type OR as an item; otherwise prepended once', sample='2x2 blocklist answers')]
+        k.encoded = [enc('codegen/mod.rs', 'utils::prepend_bitfield_unit_type', f)]
+        k.stubs = ['RegexSet::matches: symbolic answer', 'proc_macro2::TokenStream: marker enum; quote!(#x) = x', 'rewrite: include_str!("./bitfield_unit.rs") -> "X"']
+        k.bounds = ['two pre-existing items']
+        return k
+    ks.append(kernel_or_error('helper_prologue', helper))
     return ks
